@@ -13,12 +13,15 @@
 #else
 #define V_VEC_COPY(T, d, s, n) do { if (n) v_memcpy((d), (s), (n) * sizeof(T)); } while (0)
 #endif
+#ifndef V_GUARD
+#define V_GUARD(v) ((void)0)     /* guarded-by hook: a spec may #undef and define it to check the lock that guards v */
+#endif
 #define V_VEC_DECL(T, N) \
   struct N { T *data; size_t size; }; \
   static inline void N##_init(struct N *v) { v->data = NULL; v->size = 0; } \
   static inline void N##_destroy(struct N *v) { if (v->data != NULL) free(v->data); v->data = NULL; v->size = 0; } \
-  static inline size_t N##_size(const struct N *v) { return v->size; } \
-  static inline _Bool N##_empty(const struct N *v) { return v->size == 0; } \
+  static inline size_t N##_size(const struct N *v) { V_GUARD(v); return v->size; } \
+  static inline _Bool N##_empty(const struct N *v) { V_GUARD(v); return v->size == 0; } \
   static inline T *N##_data(struct N *v) { return v->data; } \
   static inline void N##_resize(struct N *v, size_t n) { \
     __CPROVER_assert(n < V_MAXSZ, "vector::resize below the modelled maximum"); \
@@ -29,27 +32,45 @@
     if (v->data != NULL) free(v->data); \
     v->data = nd; v->size = n; } \
   static inline void N##_reserve(struct N *v, size_t n) { (void)v; (void)n; } \
-  static inline void N##_clear(struct N *v) { N##_resize(v, 0); } \
-  static inline void N##_push_back(struct N *v, T x) { size_t s = v->size; N##_resize(v, s + 1); v->data[s] = x; } \
-  static inline void N##_pop_back(struct N *v) { __CPROVER_assert(v->size > 0, "vector::pop_back on a non-empty vector"); N##_resize(v, v->size - 1); } \
-  static inline void N##_pop_front(struct N *v) { __CPROVER_assert(v->size > 0, "deque::pop_front on a non-empty container"); \
+  static inline void N##_clear(struct N *v) { V_GUARD(v); N##_resize(v, 0); } \
+  static inline void N##_push_back(struct N *v, T x) { V_GUARD(v); size_t s = v->size; N##_resize(v, s + 1); v->data[s] = x; } \
+  static inline void N##_pop_back(struct N *v) { V_GUARD(v); __CPROVER_assert(v->size > 0, "vector::pop_back on a non-empty vector"); N##_resize(v, v->size - 1); } \
+  static inline void N##_pop_front(struct N *v) { V_GUARD(v); __CPROVER_assert(v->size > 0, "deque::pop_front on a non-empty container"); \
     if (v->size > 1) v_memmove(v->data, v->data + 1, (v->size - 1) * sizeof(T)); N##_resize(v, v->size - 1); } \
   static T N##_thrown;   /* at() that throws yields no value: the enclosing statement is abandoned right after */ \
   static inline T *N##_at(struct N *v, size_t i) { if (i >= v->size) { __exc = V_EXC_OUT_OF_RANGE; return &N##_thrown; } return &v->data[i]; } \
-  static inline T *N##_index(struct N *v, size_t i) { __CPROVER_assert(i < v->size, "vector::operator[] index in range"); return &v->data[i]; } \
-  static inline T *N##_back(struct N *v) { __CPROVER_assert(v->size > 0, "vector::back on a non-empty vector"); return &v->data[v->size - 1]; } \
-  static inline T *N##_front(struct N *v) { __CPROVER_assert(v->size > 0, "vector::front on a non-empty vector"); return &v->data[0]; }
+  static inline T *N##_index(struct N *v, size_t i) { V_GUARD(v); __CPROVER_assert(i < v->size, "vector::operator[] index in range"); return &v->data[i]; } \
+  static inline T *N##_back(struct N *v) { V_GUARD(v); __CPROVER_assert(v->size > 0, "vector::back on a non-empty vector"); return &v->data[v->size - 1]; } \
+  static inline T *N##_front(struct N *v) { V_GUARD(v); __CPROVER_assert(v->size > 0, "vector::front on a non-empty vector"); return &v->data[0]; }
 /* fixed-capacity variant for element types that contain a union (symbolic-size arrays of such structs exhaust the
  * SAT back end, DESIGN section 2): growth beyond CAP is cut off by an assumption => every result is B(CAP). */
 #define V_VECFIX_DECL(T, N, CAP) \
   struct N { T data[CAP]; size_t size; }; \
   static inline void N##_init(struct N *v) { v->size = 0; } \
   static inline void N##_destroy(struct N *v) { v->size = 0; } \
-  static inline size_t N##_size(const struct N *v) { return v->size; } \
-  static inline _Bool N##_empty(const struct N *v) { return v->size == 0; } \
+  static inline size_t N##_size(const struct N *v) { V_GUARD(v); return v->size; } \
+  static inline _Bool N##_empty(const struct N *v) { V_GUARD(v); return v->size == 0; } \
   static inline void N##_reserve(struct N *v, size_t n) { (void)v; (void)n; } \
-  static inline void N##_clear(struct N *v) { v->size = 0; } \
-  static inline void N##_push_back(struct N *v, T x) { __CPROVER_assume(v->size < CAP); v->data[v->size] = x; v->size++; } \
+  static inline void N##_clear(struct N *v) { V_GUARD(v); v->size = 0; } \
+  static inline void N##_push_back(struct N *v, T x) { V_GUARD(v); __CPROVER_assume(v->size < CAP); v->data[v->size] = x; v->size++; } \
   static inline T *N##_at(struct N *v, size_t i) { if (i >= v->size) { __exc = V_EXC_OUT_OF_RANGE; return NULL; } return &v->data[i]; } \
-  static inline T *N##_index(struct N *v, size_t i) { __CPROVER_assert(i < v->size, "vector::operator[] index in range"); return &v->data[i]; }
+  static inline T *N##_index(struct N *v, size_t i) { V_GUARD(v); __CPROVER_assert(i < v->size, "vector::operator[] index in range"); return &v->data[i]; }
+/* size-only variant ("abstract bag") for containers whose CONTENT the contracts do not speak about: the sequence is its
+ * length; an element read out is any value satisfying OK (the representation invariant the spec states for members). */
+#define V_VECABS_DECL(T, N, OK) \
+  struct N { size_t size; }; \
+  static T N##_cell; \
+  static inline T *N##_any(void) { T x; __CPROVER_assume(OK); N##_cell = x; return &N##_cell; } \
+  static inline void N##_init(struct N *v) { v->size = 0; } \
+  static inline void N##_destroy(struct N *v) { v->size = 0; } \
+  static inline size_t N##_size(const struct N *v) { V_GUARD(v); return v->size; } \
+  static inline _Bool N##_empty(const struct N *v) { V_GUARD(v); return v->size == 0; } \
+  static inline void N##_reserve(struct N *v, size_t n) { (void)v; (void)n; } \
+  static inline void N##_clear(struct N *v) { V_GUARD(v); v->size = 0; } \
+  static inline void N##_push_back(struct N *v, T x) { V_GUARD(v); (void)x; __CPROVER_assume(v->size + 1 < V_MAXSZ); v->size++; } \
+  static inline void N##_pop_back(struct N *v) { V_GUARD(v); __CPROVER_assert(v->size > 0, "vector::pop_back on a non-empty vector"); v->size--; } \
+  static inline void N##_pop_front(struct N *v) { V_GUARD(v); __CPROVER_assert(v->size > 0, "deque::pop_front on a non-empty container"); v->size--; } \
+  static inline T *N##_index(struct N *v, size_t i) { V_GUARD(v); __CPROVER_assert(i < v->size, "vector::operator[] index in range"); return N##_any(); } \
+  static inline T *N##_back(struct N *v) { V_GUARD(v); __CPROVER_assert(v->size > 0, "vector::back on a non-empty vector"); return N##_any(); } \
+  static inline T *N##_front(struct N *v) { V_GUARD(v); __CPROVER_assert(v->size > 0, "vector::front on a non-empty vector"); return N##_any(); }
 #endif
